@@ -161,7 +161,8 @@ def oracle(spec, res):
         # dequeued but its handler not yet started, ...) are the windows of observation O2 (DESIGN.md) and are not judged
         cl = next((r[0] for r in res['log'] if r[2] == 'cancel-loop'), None)
         started = any(r[2] == 'enter' and r[4] == 'hp' and cl is not None and r[0] < cl for r in res['log'])
-        if not started:
+        finished = any(r[2] == 'exit' and r[4] == 'hp' and cl is not None and r[0] < cl for r in res['log'])
+        if not started or finished:
             return []
     if spec.get('mode') == 'noloop':
         out = []
